@@ -92,6 +92,9 @@ StepClauses(pre, ev, post) ==
     \cup C("C10.CalledExactlyOnce", NoDupCalls(post) /\ called \cap Wids(post.waitq) = {})
     \cup C("C10.OnlyCalledLeave", \A i \in DOMAIN pre.waitq :
                                      pre.waitq[i].wid \notin called => pre.waitq[i].wid \in Wids(post.waitq))
+    \cup C("C10.RegisteredDuringCheckIsKept",
+           \* a request registered by a callback during this check is either served or still waiting
+           \A i \in DOMAIN ev.newwids : ev.newwids[i] \in called \/ ev.newwids[i] \in Wids(post.waitq))
     \cup C("C10.WaitersKeepOrder", \A i, j \in DOMAIN post.waitq : i < j => post.waitq[i].wid < post.waitq[j].wid)
     \cup C("C10.SkippedDidNotFit",
            \A i \in DOMAIN pre.waitq :
